@@ -204,6 +204,7 @@ class Group:
     self.df = None
     self.ctor_df = None
     self.skip = False
+    self.rva = None        # problems of clause reported_equals_applied (None: not evaluated)
 
 
 def pick(rng, lst):
@@ -866,6 +867,8 @@ def run_feedforward(G):
       G.reported = None if rep is None else [None if r is None else str(r) for r in rep]
     except Exception as e:  # pylint: disable=broad-except
       G.reported = "ERR " + type(e).__name__
+    if rep is not None and not isinstance(G.reported, str):
+      G.rva = reported_vs_applied(ql, cls, epochs[-1][0])
     # ---------------------------------------------------------------- the property's oracle on the real code:
     # per call a FRESH stock layer with weights q_i(w_i) from quantizer objects built here, then the activation
     wq = [q.get(s) for s in SLOTS[cls] if s not in ("state", "average")]
@@ -1047,6 +1050,7 @@ def run_recurrent(G):
           catch(c, e)
     rep = ql.get_quantizers()
     G.reported = [None if r is None else str(r) for r in rep]
+    G.rva = reported_vs_applied(ql, cls, W, dy(rng, [2, u], 8, -8, 8))
     wq = [q["kernel"], q["recurrent"], q["bias"]][:len(W)]
     tr = [True, True, False]
     sq = (lambda t: t) if q["state"] is None else fresh_q(q["state"])
@@ -1086,6 +1090,372 @@ def run_recurrent(G):
   finally:
     K.set_image_data_format(DEFAULT_FMT)
 
+
+
+# ----------------------------------------------------------------------------- shared quantizer OBJECTS
+# (strengthening round, seed C11-8).  A SCENE = a few python quantizer objects, one or two layers whose
+# quantizer arguments are THOSE objects (the same object in several roles of one layer and / or in two layers),
+# and a sequence of events `new i` (construct layer i) / `call i`.  Ties:
+#   tie 1'  identity pattern of `get_quantizers()` / `<slot>_quantizer_internal` and the (alpha, symmetric) state
+#           of every object after every construction  ==  `QObj.constructAll` (drivers/C11.lean op `ctor`)
+#   clause reported_equals_applied   get_quantizers()[i] and the object `call` uses for slot i give the same
+#           tensor on the layer's own weight i (state slot: on a state-shaped tensor), bit for bit, at call time
+#   clause dropin   layer(x) == stock layer on get_quantizers()[i](w_i) — the REPORTED objects, at call time
+#   clause reported (tie 3)  str(get_quantizers()[i]) == a fresh twin of the configuration, switched iff the model's
+#           heap says the object was switched
+
+QOBJ_KINDS = ["quantized_bits(4,0,1)", "ternary()", "quantized_bits(4,0,0)", "binary()", "quantized_bits(4,0,1,alpha=1)",
+              "quantized_po2(4)", "quantized_bits(3,0,1)", "quantized_bits(4,0,1,alpha='auto_po2')"]
+QOBJ_STATE_KINDS = ["quantized_bits(4,0,1)", "quantized_bits(4,0,0)", "quantized_bits(6,2,1)", "quantized_bits(4,0,1,alpha=1)"]
+SH_NSLOTS = {"dense": 2, "conv1d": 2, "conv2d": 2, "dwconv2d": 2, "scaleshift": 2, "sepconv1d": 3, "sepconv2d": 3,
+             "simplernn": 4, "lstm": 4, "gru": 4}
+SH_TRAIN = {"dense": [0], "conv1d": [0], "conv2d": [0], "dwconv2d": [0], "scaleshift": [0, 1], "sepconv1d": [0, 1],
+            "sepconv2d": [0, 1], "simplernn": [0, 1], "lstm": [0, 1], "gru": [0, 1]}
+SH_PATTERNS2 = [[0, 0], [0, 1], [1, 0]]
+SH_PATTERNS3 = [[0, 0, 0], [0, 1, 1], [0, 0, None], [1, 0, 0], [0, 1, 0]]
+SH_PATTERNS4 = [[0, 0, 0, None], [0, 0, 0, 0], [0, 1, 0, None], [0, 1, 2, 1], [0, 0, None, None], [0, 1, 1, None],
+                [0, 1, 2, 2], [0, 1, None, 0], [1, 0, 0, None], [0, 1, 2, 0]]
+
+
+class Scene:
+  _n = 0
+
+  def __init__(self, objs, layers, events, wscale, used=False):
+    self.objs, self.layers, self.events, self.wscale, self.used = objs, layers, events, wscale, used
+    self.sid = Scene._n
+    Scene._n += 1
+    self.calls = []        # dicts: layer index, label, err, problems ...
+    self.snaps = []        # after each `new`: (number of layers constructed, states of all objects)
+    self.ident = []        # per layer: (internal ids, reported ids)
+    self.reported = []     # per layer: reported strings at the end
+    self.line0 = None
+
+  def label(self, li=None):
+    d = {"objects": self.objs, "layers": [dict(cls=L["cls"], slots=L["slots"], **L.get("geo", {})) for L in self.layers],
+         "events": self.events, "weights": self.wscale, "used_before": self.used}
+    return "shared #%d%s %s" % (self.sid, "" if li is None else " layer %d" % li, json.dumps(d, sort_keys=True))
+
+
+def gen_shared(rng, tier):
+  thorough = tier != "quick"
+  S = []
+  n = 0
+  # ---- one layer, every class with >= 2 quantizer slots, every aliasing pattern, object kinds rotating
+  for cls, ns in SH_NSLOTS.items():
+    pats = {2: SH_PATTERNS2, 3: SH_PATTERNS3, 4: SH_PATTERNS4}[ns]
+    for pi, pat in enumerate(pats):
+      reps = 2 if (cls in RNN or thorough) else 1
+      for rep in range(reps):
+        n += 1
+        nobj = 1 + max(v for v in pat if v is not None)
+        objs = []
+        for o in range(nobj):
+          in_state = ns == 4 and pat[3] == o
+          kinds = QOBJ_STATE_KINDS if in_state else QOBJ_KINDS
+          # object 0 of the first repetition is always the plain `quantized_bits(4,0,1)` (alpha=None)
+          objs.append(kinds[0] if (o == 0 and rep == 0) else kinds[(n + 3 * o + rep) % len(kinds)])
+        geo = {}
+        if cls in RNN:
+          geo = dict(impl=1 + (n % 2 if cls != "simplernn" else 0), reset_after=(cls == "gru" and n % 3 == 0),
+                     use_bias=not (pat[2] is None and n % 2 == 0))
+        elif cls != "scaleshift":
+          geo = dict(use_bias=not (pat[-1] is None))
+        S.append(Scene(objs, [dict(cls=cls, slots=pat, geo=geo)], [["new", 0], ["call", 0], ["call", 0]][:2 + (n % 3 == 0)],
+                       ("small", "large", "small")[n % 3], used=(n % 4 == 1)))
+  # ---- one object in TWO layers
+  pairs = [
+      (("dense", [0, 1]), ("conv1d", [1, 0])), (("lstm", [1, 1, 0, 0]), ("dense", [0, None])),
+      (("dense", [0, 0]), ("lstm", [0, 0, 0, None])), (("gru", [0, 1, 1, None]), ("simplernn", [1, 0, 0, 0])),
+      (("sepconv2d", [1, 1, 0]), ("dwconv2d", [0, 1])), (("scaleshift", [0, 1]), ("conv2d", [1, 0])),
+      (("simplernn", [1, 2, 0, 0]), ("sepconv1d", [0, 2, 1])), (("conv2d", [1, 0]), ("gru", [0, 0, 1, None]))]
+  orders = [[["new", 0], ["new", 1], ["call", 0], ["call", 1]],
+            [["new", 0], ["call", 0], ["new", 1], ["call", 0], ["call", 1]],       # B constructed AFTER A was used
+            [["new", 0], ["new", 1], ["call", 1], ["call", 0], ["call", 1]]]
+  for pi, (A, B) in enumerate(pairs):
+    for oi, ev in enumerate(orders):
+      if not thorough and (pi + oi) % 3 == 2:
+        continue
+      n += 1
+      nobj = 1 + max(v for v in A[1] + B[1] if v is not None)
+      st_objs = {v for (c_, pat) in (A, B) if SH_NSLOTS[c_] == 4 for v in [pat[3]] if v is not None}
+      objs = []
+      for o in range(nobj):
+        kinds = QOBJ_STATE_KINDS if o in st_objs else QOBJ_KINDS
+        objs.append(kinds[0] if o == 0 else kinds[(n + 3 * o) % len(kinds)])
+      Ls = []
+      for (c_, pat) in (A, B):
+        geo = {}
+        if c_ in RNN:
+          geo = dict(impl=1 + (n % 2 if c_ != "simplernn" else 0), reset_after=(c_ == "gru" and n % 2 == 0), use_bias=True)
+        elif c_ != "scaleshift":
+          geo = dict(use_bias=not (pat[-1] is None))
+        Ls.append(dict(cls=c_, slots=pat, geo=geo))
+      S.append(Scene(objs, Ls, ev, ("small", "large")[n % 2], used=(n % 3 == 0)))
+  return S
+
+
+SH_SLOTNAMES = SLOTS
+
+
+def qobj_state(q, kind):
+  """the protocol form of a python quantizer object's state (what `QObj.QState` holds)"""
+  import qkeras.quantizers as QQ
+  a = getattr(q, "alpha", None)
+  sets_sym = isinstance(q, tuple(c_ for c_ in (getattr(QQ, "quantized_bits", None), getattr(QQ, "quantized_linear", None))
+                                 if c_ is not None))
+  # `has`: the object's class has its OWN `_set_trainable_parameter` (BaseQuantizer's is `pass`: the po2 / relu
+  # families inherit the no-op, which the model treats like "no method")
+  from qkeras.base_quantizer import BaseQuantizer
+  meth = getattr(type(q), "_set_trainable_parameter", None)
+  has = meth is not None and meth is not getattr(BaseQuantizer, "_set_trainable_parameter", None)
+  return {"kind": kind, "has": bool(has), "sets_symmetric": bool(sets_sym),
+          "alpha": None if a is None else (0 if isinstance(a, str) and a == "auto_po2" else 1),
+          "symmetric": bool(getattr(q, "symmetric", False))}
+
+
+def sh_build(L, objs, rng):
+  """(quantized layer, owner of the `*_quantizer_internal` attributes, input, stock maker)"""
+  import tensorflow as tf
+  import qkeras as Q
+  KL = tf.keras.layers
+  cls, pat, g = L["cls"], L["slots"], L.get("geo", {})
+  names = SLOTS[cls]
+  kw = {nm + "_quantizer": (None if v is None else objs[v]) for nm, v in zip(names, pat)}
+  ub = g.get("use_bias", True)
+  if cls == "dense":
+    return Q.QDense(3, use_bias=ub, **kw), (2, 4), lambda: KL.Dense(3, use_bias=ub)
+  if cls == "conv1d":
+    return (Q.QConv1D(2, 2, padding="causal", dilation_rate=2, use_bias=ub, **kw), (2, 5, 3),
+            lambda: KL.Conv1D(2, 2, padding="causal", dilation_rate=2, use_bias=ub))
+  if cls == "conv2d":
+    return Q.QConv2D(2, (2, 2), padding="same", use_bias=ub, **kw), (1, 4, 3, 2), lambda: KL.Conv2D(2, (2, 2), padding="same", use_bias=ub)
+  if cls == "dwconv2d":
+    return (Q.QDepthwiseConv2D((2, 2), depth_multiplier=2, use_bias=ub, **kw), (1, 4, 3, 2),
+            lambda: KL.DepthwiseConv2D((2, 2), depth_multiplier=2, use_bias=ub))
+  if cls == "sepconv1d":
+    return (Q.QSeparableConv1D(2, 2, padding="same", use_bias=ub, **kw), (2, 5, 2),
+            lambda: KL.SeparableConv1D(2, 2, padding="same", use_bias=ub))
+  if cls == "sepconv2d":
+    return (Q.QSeparableConv2D(3, (2, 2), strides=(2, 1), use_bias=ub, **kw), (1, 4, 3, 2),
+            lambda: KL.SeparableConv2D(3, (2, 2), strides=(2, 1), use_bias=ub))
+  if cls == "scaleshift":
+    return Q.QScaleShift(use_bias=True, **kw), (2, 3), None
+  u = 3
+  rkw = dict(use_bias=ub, activation="quantized_tanh(4)", return_sequences=True, return_state=True, **kw)
+  skw = lambda: dict(use_bias=ub, activation=fresh_q("quantized_tanh(4)"))   # noqa: E731
+  if cls == "simplernn":
+    return Q.QSimpleRNN(u, **rkw), (2, 3, 4), lambda: KL.SimpleRNNCell(u, **skw())
+  if cls == "lstm":
+    return (Q.QLSTM(u, recurrent_activation="quantized_sigmoid(4)", implementation=g["impl"], **rkw), (2, 3, 4),
+            lambda: KL.LSTMCell(u, recurrent_activation=fresh_q("quantized_sigmoid(4)"), implementation=g["impl"], **skw()))
+  return (Q.QGRU(u, recurrent_activation="quantized_sigmoid(4)", implementation=g["impl"], reset_after=g["reset_after"], **rkw),
+          (2, 3, 4),
+          lambda: KL.GRUCell(u, recurrent_activation=fresh_q("quantized_sigmoid(4)"), implementation=g["impl"],
+                             reset_after=g["reset_after"], **skw()))
+
+
+def internals_of(ql, cls):
+  """the objects `call` uses, slot order (`self.<slot>_quantizer_internal` of the layer / of its cell)"""
+  owner = ql.cell if cls in RNN else ql
+  return [getattr(owner, nm + "_quantizer_internal", None) for nm in SLOTS[cls]]
+
+
+def reported_vs_applied(ql, cls, W, state_t=None):
+  """clause `reported_equals_applied` on the real objects: get_quantizers()[i] and `<slot>_quantizer_internal`
+  must be the same quantizer — same text, and the same values on the layer's own tensor of slot i (bit for bit).
+  Returns the list of problems (empty = the clause holds)."""
+  import tensorflow as tf
+  rep = list(ql.get_quantizers())
+  app = internals_of(ql, cls)
+  names = SLOTS[cls]
+  probs = []
+  if len(rep) != len(app):
+    return [{"slot": "*", "what": "get_quantizers() has %d entries for %d slots" % (len(rep), len(app))}]
+  for i, (nm, r, a) in enumerate(zip(names, rep, app)):
+    if (r is None) != (a is None):
+      probs.append({"slot": nm, "what": "reported %s, applied %s" % (r, a)})
+      continue
+    if r is None:
+      continue
+    if str(r) != str(a):
+      probs.append({"slot": nm, "what": "text", "reported": str(r), "applied": str(a)})
+    t = None
+    if nm == "state":
+      t = state_t
+    elif nm != "average" and i < len(W):
+      t = W[i]
+    if t is None:
+      continue
+    try:
+      vr = np.asarray(r(tf.constant(t)), dtype=np.float32)
+      va = np.asarray(a(tf.constant(t)), dtype=np.float32)
+    except Exception as e:  # pylint: disable=broad-except
+      probs.append({"slot": nm, "what": "quantizer raises %s" % type(e).__name__})
+      continue
+    if not same(vr, va):
+      k = int(np.flatnonzero(vr.ravel() != va.ravel())[0]) if vr.shape == va.shape else 0
+      probs.append({"slot": nm, "what": "values", "reported": str(r), "applied": str(a),
+                    "weight": str(F(float(np.asarray(t).ravel()[k]))), "reported_gives": str(F(float(vr.ravel()[k]))),
+                    "applied_gives": str(F(float(va.ravel()[k])))})
+  return probs
+
+
+def run_scene(S, rng):
+  import tensorflow as tf
+  from qkeras.quantizers import get_quantizer
+  objs = [get_quantizer(s) for s in S.objs]
+  if S.used:
+    for q in objs:
+      q(tf.constant(dy(rng, [3, 5], 16, -20, 20)))
+  S.state0 = [qobj_state(q, k) for k, q in enumerate(objs)]
+  built = {}
+
+  def oid(q):
+    if q is None:
+      return None
+    for k, o in enumerate(objs):
+      if q is o:
+        return k
+    return "foreign:" + str(q)
+
+  for ev, li in S.events:
+    L = S.layers[li]
+    cls = L["cls"]
+    if ev == "new":
+      ql, xshape, mk = sh_build(L, objs, rng)
+      if cls in RNN:
+        ql.build(xshape)
+      else:
+        ql.build(xshape)
+      W = []
+      for w in ql.weights:
+        shp = [int(v) for v in w.shape]
+        W.append(dy(rng, shp, 64, -20, 20) if S.wscale == "small" else dy(rng, shp, 4, -12, 12))
+      ql.set_weights(W)
+      built[li] = (ql, xshape, mk, W)
+      S.snaps.append((len(built), [qobj_state(q, k) for k, q in enumerate(objs)]))
+      continue
+    ql, xshape, mk, W = built[li]
+    x = dy(rng, list(xshape), 4, -8, 8)
+    call = {"layer": li, "cls": cls, "err": None, "probs": [], "dropin": None, "x": x}
+    S.calls.append(call)
+    try:
+      out = ql(tf.constant(x))
+      impl = [np.asarray(o, dtype=np.float32) for o in (out if isinstance(out, (list, tuple)) else [out])]
+    except Exception as e:  # pylint: disable=broad-except
+      call["err"] = (type(e).__name__, str(e)[:300])
+      continue
+    call["out0"] = [str(v) for v in fr_list(impl[0])[:4]]
+    rep = list(ql.get_quantizers())
+    st_t = dy(rng, [xshape[0], 3], 8, -8, 8) if cls in RNN else None
+    call["probs"] = reported_vs_applied(ql, cls, W, st_t)
+    # ---- drop-in with the REPORTED objects, as they are now
+    try:
+      QW = [np.asarray(w if r is None else r(tf.constant(w)), dtype=np.float32) for r, w in zip(rep, W)]
+      if cls == "scaleshift":
+        ref = [np.asarray(tf.constant(QW[1]) + tf.constant(x) * tf.constant(QW[0]), dtype=np.float32)]
+      elif cls in RNN:
+        cell = mk()
+        B, T = x.shape[0], x.shape[1]
+        cell.build((B, xshape[2]))
+        cell.set_weights(QW)
+        sq = rep[3] if rep[3] is not None else (lambda t: t)
+        st = [tf.zeros((B, 3))] * (2 if cls == "lstm" else 1)
+        seq = []
+        for t in range(T):
+          o_, st = cell(tf.constant(x[:, t, :]), [sq(s_) for s_ in st])
+          st = list(st) if isinstance(st, (list, tuple)) else [st]
+          seq.append(np.asarray(o_, dtype=np.float32))
+        ref = [np.stack(seq, axis=1)] + [np.asarray(s_, dtype=np.float32) for s_ in st]
+      else:
+        sl = mk()
+        sl.build(x.shape)
+        sl.set_weights(QW)
+        ref = [np.asarray(sl(tf.constant(x)), dtype=np.float32)]
+    except Exception as e:  # pylint: disable=broad-except
+      raise core.InfraError("stock layer of %s failed: %s" % (S.label(li), str(e)[:300]))
+    if not (len(ref) == len(impl) and all(same(a, b) for a, b in zip(impl, ref))):
+      call["dropin"] = [[(int(i), str(F(float(a.ravel()[i]))), str(F(float(b.ravel()[i]))))
+                         for i in np.flatnonzero(a.ravel() != b.ravel())[:3]] if a.shape == b.shape else
+                        (str(a.shape), str(b.shape)) for a, b in zip(impl, ref)]
+  for li in range(len(S.layers)):
+    ql = built[li][0]
+    cls = S.layers[li]["cls"]
+    S.ident.append(([oid(q) for q in internals_of(ql, cls)], [oid(q) for q in ql.get_quantizers()]))
+    S.reported.append([None if r is None else str(r) for r in ql.get_quantizers()])
+  S.lines = []
+  order = [li for ev, li in S.events if ev == "new"]
+  for k in range(1, len(order) + 1):
+    S.lines.append({"op": "ctor", "heap": S.state0,
+                    "layers": [{"n": SH_NSLOTS[S.layers[li]["cls"]], "train": SH_TRAIN[S.layers[li]["cls"]],
+                                "args": S.layers[li]["slots"]} for li in order[:k]]})
+  S.order = order
+
+
+def judge_scene(S, outs, run):
+  """outs: the driver's answers to S.lines (one per prefix of constructions)"""
+  from qkeras.quantizers import get_quantizer
+  mirrored = True
+  # ---- tie 1': object states after every construction, identity patterns at the end
+  for k, (o, (nb, states)) in enumerate(zip(outs, S.snaps)):
+    run.compared += 1
+    if o["heap"] != states:
+      mirrored = False
+      run.disagree("quantizer-object-state", S.label(), states, o["heap"])
+  final = outs[-1]
+  for pos, li in enumerate(S.order):
+    run.compared += 1
+    m = final["layers"][pos]
+    if [m["internal"], m["quantizers"]] != [list(S.ident[li][0]), list(S.ident[li][1])]:
+      mirrored = False
+      run.disagree("quantizer-object-identity", S.label(li),
+                   {"internal": S.ident[li][0], "get_quantizers": S.ident[li][1]},
+                   {"internal": m["internal"], "get_quantizers": m["quantizers"]})
+    if not m["reported_eq_applied"]:
+      run.disagree("theorem-instance", S.label(li), "-", "model: reported state != applied state")
+    # ---- tie 3: the reported texts vs twins of the configuration, switched iff the model switched the object
+    want = []
+    for v in m["quantizers"]:
+      if v is None:
+        want.append(None)
+        continue
+      q = get_quantizer(S.objs[v])
+      if final["heap"][v] != S.state0[v] and hasattr(q, "_set_trainable_parameter"):
+        q._set_trainable_parameter()
+      want.append(str(q))
+    run.compared += 1
+    cls = S.layers[li]["cls"]
+    if S.reported[li] != want:
+      run.disagree("get_quantizers:" + cls, S.label(li), S.reported[li], want)
+      run.violate("reported", {"cls": cls, "stream": "shared"},
+                  {"case": S.label(li), "reported": S.reported[li], "model": want}, mirrored=False)
+  # ---- the clauses, per call
+  for ci, c in enumerate(S.calls):
+    cls = c["cls"]
+    shared_roles = len([v for v in S.layers[c["layer"]]["slots"] if v is not None]) > \
+        len({v for v in S.layers[c["layer"]]["slots"] if v is not None})
+    run.case("%s call %d" % (S.label(c["layer"]), ci), nontrivial=True,
+             sample={"class": cls, "stream": "shared", "objects": S.objs, "slots": S.layers[c["layer"]]["slots"],
+                     "out0": c.get("out0")})
+    run.count("class_" + cls)
+    run.count("stream_shared")
+    run.count("shared_within_layer" if shared_roles else "shared_across_layers_only")
+    key0 = {"cls": cls, "stream": "shared"}
+    if c["err"] is not None:
+      run.count("impl_raises_" + c["err"][0])
+      run.violate("runs", dict(key0, error=c["err"][0]), {"case": S.label(c["layer"]), "error": list(c["err"])}, mirrored=False)
+      continue
+    run.compared += 2
+    if c["probs"]:
+      run.violate("reported_equals_applied", dict(key0, slot=c["probs"][0]["slot"]),
+                  {"case": S.label(c["layer"]), "call": ci, "problems": c["probs"][:4]}, mirrored=mirrored)
+    else:
+      run.count("reported_equals_applied_holds")
+    if c["dropin"] is not None:
+      run.violate("dropin", key0, {"case": S.label(c["layer"]), "call": ci, "oracle": "stock layer on get_quantizers()[i](w_i)",
+                                   "impl_vs_stock_on_reported_quantizers": c["dropin"]}, mirrored=mirrored)
+    else:
+      run.count("tie2_dropin_holds")
 
 # ----------------------------------------------------------------------------- recorded sites
 
@@ -1204,7 +1574,20 @@ def run(run: core.Run, tier: str):
         run.count("q_%s" % ("none" if v is None else v.split("(")[0] + ("_auto" if v == AUTO else "")))
   if K.image_data_format() != DEFAULT_FMT:
     raise core.InfraError("image_data_format not restored")
+  # ---- shared quantizer objects (scenes)
+  Scene._n = 0
+  scenes = gen_shared(rng, tier)
+  scene_index = []
+  for S in scenes:
+    run_scene(S, np.random.default_rng([run.seed, 1000003, S.sid]))
+    scene_index.append(len(lines))
+    lines += S.lines
+    run.count("scenes_%d_layers" % len(S.layers))
+    for s_ in S.objs:
+      run.count("shared_object_" + s_.split("(")[0] + ("_alpha_none" if "alpha" not in s_ else ""))
   outs = core.run_driver("C11", lines)
+  for S, li in zip(scenes, scene_index):
+    judge_scene(S, outs[li:li + len(S.lines)], run)
 
   for G, li in zip(groups, index):
     rnn = G.cls in RNN
@@ -1310,6 +1693,16 @@ def run(run: core.Run, tier: str):
         run.count("no_quantizer_cases")
         if not all(same(a, b) for a, b in zip(c.impl, c.stock_raw)):
           run.violate("no_quantizer", key0, {"case": c.label}, mirrored=mirrored)
+    # ------------------------------------------------------------ reported == applied (per object, real code only)
+    if G.rva is not None:
+      run.compared += 1
+      if G.rva:
+        key = {"cls": G.cls, "slot": G.rva[0]["slot"]}
+        if G.stream != "structured":
+          key["stream"] = G.stream
+        run.violate("reported_equals_applied", key, {"case": G.cases[0].label, "problems": G.rva[:4]}, mirrored=False)
+      else:
+        run.count("reported_equals_applied_holds")
     # ------------------------------------------------------------ tie 3: get_quantizers (per object)
     if G.cls != "activation":
       c = G.cases[0]
@@ -1325,8 +1718,9 @@ def run(run: core.Run, tier: str):
         run.violate("reported", key0, {"case": c.label, "reported": G.reported, "model": want}, mirrored=False)
       if o_obj["applied"] != o_obj["reported_live"]:
         run.disagree("applied-vs-reported", c.label, o_obj["applied"], o_obj["reported_live"])
-  run.extra["cases"] = sum(len(G.cases) for G in groups)
-  run.extra["objects"] = len(groups)
+  run.extra["cases"] = sum(len(G.cases) for G in groups) + sum(len(S.calls) for S in scenes)
+  run.extra["objects"] = len(groups) + sum(len(S.layers) for S in scenes)
+  run.extra["scenes_shared_quantizer_objects"] = len(scenes)
   run.assumptions.append(
       "exact regime: weights k/16, inputs k/4, quantized activations; every float32 partial sum is exactly "
       "representable, so TF's summation order does not matter (validated by the bit-for-bit ties)")
